@@ -13,6 +13,7 @@ import (
 	"fmt"
 	"regexp"
 	"strings"
+	"sync"
 	"time"
 	"unicode/utf8"
 
@@ -491,10 +492,35 @@ func genC07Row(r *common.Rng) c07Row {
 
 var cuuRe = regexp.MustCompile(`\x1b\[[0-9]+A\x1b\[J`)
 
+// c07DefaultWidth: the width the library gives a row when the output is not a
+// terminal and no width was requested. It is not documented, so it is measured
+// (a bare bar in such a container, once per process) rather than assumed.
+var c07DefaultWidth = sync.OnceValue(func() int {
+	var buf bytes.Buffer
+	ch := make(chan interface{})
+	pr := mpb.New(mpb.WithOutput(&buf), mpb.WithManualRefresh(ch))
+	bar := pr.MustAdd(10, mpb.BarStyle().Build())
+	n0 := hk.counts[hpRenderEnd].Load()
+	ch <- time.Now()
+	waitCount(hpRenderEnd, n0+1, 10*time.Second)
+	bar.Abort(false)
+	pr.Wait()
+	out := buf.String()
+	if loc := cuuRe.FindStringIndex(out); loc != nil {
+		out = out[:loc[0]]
+	}
+	if i := strings.IndexByte(out, '\n'); i > 0 {
+		return vterm.StringWidth(stripSGR(out[:i]))
+	}
+	return 0
+})
+
 func checkC07Row(row c07Row, g *caseGuard) (msg, key string) {
 	tw := row.Width
 	if tw <= 0 {
-		tw = 80
+		if tw = c07DefaultWidth(); tw <= 0 {
+			return "", "" // could not be measured: not decided
+		}
 	}
 	var out string
 	var timedOut bool
